@@ -184,6 +184,25 @@ pub fn verify(t: &TermState, cfg: &zvt_feig_terminal::config::Config) -> Vec<Str
     problems
 }
 
+/// When an operation returns, the client must not still hold a connection on which a fault
+/// occurred during that operation (abandoning is part of handling the failure, not of the next call).
+fn held_after_fault(t: &TermState, op: &str, out: &mut Vec<String>) {
+    for (c, evs) in t.conns.iter().enumerate() {
+        let fault = evs.iter().find_map(|e| match e {
+            ConnEv::Sent(l) if l.starts_with("fault:") => Some(l.clone()),
+            _ => None,
+        });
+        if let Some(f) = fault {
+            if !evs.contains(&ConnEv::Dropped) {
+                let msg = format!("{op} returned while the client still held connection {c}, on which '{f}' had occurred");
+                if !out.contains(&msg) {
+                    out.push(msg);
+                }
+            }
+        }
+    }
+}
+
 fn render_log(t: &TermState) -> String {
     t.glog
         .iter()
@@ -217,22 +236,31 @@ pub fn run(run: &RunInfo) -> Summary {
                 acc.count("w_config_variant", 1);
             }
             let rc_to = cfg.feig_config.read_card_timeout as u64;
+            // end-of-day either completes or is answered with 'receiver not ready' (A0), which the
+            // client tolerates: a normally completed exchange either way
+            let eod_a0 = sh.borrow_mut().any(2, "end-of-day-reply") == 1;
             let hook: Hook = Box::new(move |t, ctx, req, x, _nth| {
-                let steps = default_script(t, req, &Outcome::Ok, 1);
+                let outcome = if eod_a0 && req.key == "EndOfDay" { Outcome::Abort(0xa0) } else { Outcome::Ok };
+                let steps = default_script(t, req, &outcome, 1);
                 let timeout_ms = if matches!(*cur2.borrow(), Op::ReadCard) { (rc_to + 2) * 1000 } else { 60_000 };
                 Some(inject(steps, ctx, x, timeout_ms, t.table))
             });
             let mut results = vec![];
-            let problems;
+            let mut held: Vec<String> = vec![];
+            let mut problems;
             let log;
             {
                 let sc = Scenario::new(sh.clone(), hook);
                 let mut all_ops = ops.clone();
                 all_ops.push(Op::ReadCard);
                 match sc.new_feig(cfg.clone()) {
-                    Err(e) => results.push(format!("new -> {e}")),
+                    Err(e) => {
+                        results.push(format!("new -> {e}"));
+                        held_after_fault(&sc.sim.w.borrow().t, "Feig::new", &mut held);
+                    }
                     Ok(mut feig) => {
                         results.push("new -> ok".into());
+                        held_after_fault(&sc.sim.w.borrow().t, "Feig::new", &mut held);
                         for op in &all_ops {
                             // the peer may close the idle connection between two operations
                             if sh.borrow_mut().dev(2, "idle-close") == 1 {
@@ -247,6 +275,7 @@ pub fn run(run: &RunInfo) -> Summary {
                             let r = sc.run(&mut feig, op);
                             acc.count("transitions", 1);
                             results.push(format!("{} -> {}", op.label(), r.short()));
+                            held_after_fault(&sc.sim.w.borrow().t, &op.label(), &mut held);
                             if matches!(r, OpResult::Hung | OpResult::Panicked(_)) {
                                 break;
                             }
@@ -256,6 +285,7 @@ pub fn run(run: &RunInfo) -> Summary {
                 }
                 let w = sc.sim.w.borrow();
                 problems = verify(&w.t, &cfg);
+                problems.extend(held.iter().cloned());
                 log = render_log(&w.t);
                 // witnesses
                 let faults = w.t.glog.iter().filter(|(_, e)| matches!(e, ConnEv::Sent(l) if l.starts_with("fault:"))).count();
@@ -402,7 +432,7 @@ pub fn run(run: &RunInfo) -> Summary {
         transitions: acc.get("transitions"),
         traces_validated: execs,
         distinct_nontrivial: acc.set_len("outcomes"),
-        rule: format!("real Feig client against the simulated terminal (paused clock): 2 configurations (usual; no terminal id, other password and currency) x 7 scenarios (Feig::new, then read_card / begin / commit idle / cancel idle / commit and cancel with another transaction open / configure, then a further read_card) x every placement of <= {budget} fault(s): at every terminal-to-client packet (handshake included) one of close, close after half a packet, reset, undecodable body, foreign control field, NACK, silence, reply 1 ms after / 1 ms before the time-out, wrong serial, serial differing in case, identity check answered with an abort; and the peer closing the idle connection before any operation; plus two clients in one process (the first at three stages of progress) x 5 pairs of configured / reported serial number of the second. Oracle on the global connection log"),
+        rule: format!("real Feig client against the simulated terminal (paused clock): 2 configurations (usual; no terminal id, other password and currency) x end-of-day completing or answered with the tolerated A0 x 7 scenarios (Feig::new, then read_card / begin / commit idle / cancel idle / commit and cancel with another transaction open / configure, then a further read_card) x every placement of <= {budget} fault(s): at every terminal-to-client packet (handshake included) one of close, close after half a packet, reset, undecodable body, foreign control field, NACK, silence, reply 1 ms after / 1 ms before the time-out, wrong serial, serial differing in case, identity check answered with an abort; and the peer closing the idle connection before any operation; plus two clients in one process (the first at three stages of progress) x 5 pairs of configured / reported serial number of the second. Oracle on the global connection log (and, after every call, that no connection that saw a fault is still held)"),
         exhaustive: true,
         required_witnesses: vec![
             "a fault was followed by a fresh, vetted connection".into(),
